@@ -136,6 +136,8 @@ def gen(seed, run, tier='quick'):
         # 300 converters is as legal as one of 3)
         # many other quantity types come and use their registries
         'manytypes': rng.choice([0, 0, 0, 1]),
+        # the user switches decimalfp's default rounding mode mid-way
+        'rounding': rng.choice([0, 0, 1]),
         'regn': rng.choice([0, 0, 0, 1]),
         'remn': rng.choice([0, 0, 0, 1]),
         'subreg': rng.choice([0, 0, 1, 2]),
@@ -261,6 +263,8 @@ def gen(seed, run, tier='quick'):
             toks.append(['grem', rng.randrange(n_g)])
         elif k == 'manytypes':
             toks.append(['manytypes', rng.choice([5, 40, 200])])
+        elif k == 'rounding':
+            toks.append(['rounding', rng.randrange(len(ROUNDINGS))])
         elif k == 'regn':
             c = rng.randrange(n_mc)
             n_ = rng.choice([3, 40, 300])
@@ -315,6 +319,9 @@ def shrink_args(h):
 # --------------------------------------------------------------------------
 # execution inside a world
 
+ROUNDINGS = ['ROUND_HALF_EVEN', 'ROUND_HALF_UP', 'ROUND_HALF_DOWN',
+             'ROUND_DOWN', 'ROUND_UP', 'ROUND_CEILING', 'ROUND_FLOOR',
+             'ROUND_05UP']
 THREADABLE = ('reg', 'rem', 'regtmp', 'remtop', 'regbad', 'greg', 'grem',
               'subreg', 'subrem', 'hreg', 'hrem')
 HANG_S = 3.0
@@ -524,11 +531,13 @@ def execute(h):
     gq = [G(_frac(cfg['gamount']), u) for u in gunits]
     # the same again with amount zero: zero is an amount, too (a converter
     # answering 0 has answered)
-    money_sets = [moneys, [Money(0, c) for c in curs]]
+    # ... and with a big amount (the sixth decimal of a rate shows in cents)
+    money_sets = [moneys, [Money(0, c) for c in curs],
+                  [Money(amount * 1000 + 7, c) for c in curs]]
     gq_sets = [gq, [G(0, u) for u in gunits]]
     hq_sets = [[H(_frac(cfg['gamount']), u) for u in hunits],
                [H(0, u) for u in hunits]]
-    pairs = [(a, b, k) for k in (0, 1) for a in range(n_cur)
+    pairs = [(a, b, k) for k in (0, 1, 2) for a in range(n_cur)
              for b in range(n_cur) if a != b]
     gpairs = [(a, b, k) for k in (0, 1) for a in range(3) for b in range(3)
               if a != b]
@@ -966,6 +975,7 @@ def execute(h):
             # (the registered one may be freed and its address used again)
             twin = build_mconv(cfg['mconvs'][c], scale)
             twins.append(twin)
+            temp_specs.append((c, scale))
             temp_answers.append({p: safely(direct, twin, *p)
                                  for p in pairs})
             mstack.append(1000 + len(temp_answers) - 1)
@@ -983,6 +993,21 @@ def execute(h):
                     violate('money_remove', 'top_refused', i,
                             observed=list(o))
                 after(i, o[0])
+        elif op == 'rounding':
+            import decimalfp
+            decimalfp.set_dflt_rounding_mode(
+                getattr(decimalfp.ROUNDING, ROUNDINGS[t[1] % len(ROUNDINGS)]))
+            # from now on every converter answers what a converter with
+            # the same rates, made now, answers
+            answers[:] = [{p: safely(direct, build_mconv(spec), *p)
+                           for p in pairs} for spec in cfg['mconvs']]
+            for j_, (c_, scale_) in enumerate(temp_specs):
+                temp_answers[j_] = {p: safely(
+                    direct, build_mconv(cfg['mconvs'][c_], scale_), *p)
+                    for p in pairs}
+            seen_by_state.clear()
+            bump(faults, 'rounding_mode_switched')
+            after(i, 'ok')
         elif op == 'manytypes':
             # other parts of the program declare their own types, look at
             # their (empty) converter lists, register and use a converter
@@ -1128,7 +1153,7 @@ def execute(h):
 
     next_in_thread = [False]
     other_types = []
-    twins, temp_answers = [], []
+    twins, temp_answers, temp_specs = [], [], []
 
     def in_thread(i, fn):
         """Run fn in a fresh thread while this one waits.  A call that
@@ -1257,6 +1282,11 @@ def execute(h):
                 fwd = e_ is not None
                 e_ = e_ or spec_['table'].get(f"{b_}{a_}")
                 if e_ is None:
+                    # ... and only for those
+                    if ganswers[gi_][p_][0] == 'ok':
+                        violate('generic_convert', 'table_answers_what_it_'
+                                'does_not_cover', -1, conv=gi_,
+                                pair=list(p_))
                     continue
                 declined = spec_['kind'] == 'subtable' and len(e_) > 3 and \
                     (e_[3] == 2 or (e_[3] == 0) == fwd)
@@ -1317,6 +1347,8 @@ def _sym(t):
         return {'regn': 'N', 'remn': 'n'}[op] + '.'
     if op == 'manytypes':
         return 'M.'
+    if op == 'rounding':
+        return 'r.'
     return '??'
 
 
